@@ -716,15 +716,22 @@ func init() {
 			A := int(inst>>18) & 0xff //GETA
 			RA := lbase + A
 			Sbx := int(inst&0x3ffff) - opMaxArgSbx //GETSBX
-			if init, ok1 := reg.Get(RA).(LNumber); ok1 {
-				if step, ok2 := reg.Get(RA + 2).(LNumber); ok2 {
-					// +inline-call reg.SetNumber RA LNumber(init-step)
-				} else {
-					L.RaiseError("for statement step must be a number")
-				}
-			} else {
+			// init, limit and step may be strings convertible to numbers (Lua 5.1 forprep)
+			init, ok1 := forOperand(reg.Get(RA))
+			if !ok1 {
 				L.RaiseError("for statement init must be a number")
 			}
+			limit, ok2 := forOperand(reg.Get(RA + 1))
+			if !ok2 {
+				L.RaiseError("for statement limit must be a number")
+			}
+			step, ok3 := forOperand(reg.Get(RA + 2))
+			if !ok3 {
+				L.RaiseError("for statement step must be a number")
+			}
+			reg.SetNumber(RA+1, limit)
+			reg.SetNumber(RA+2, step)
+			// +inline-call reg.SetNumber RA LNumber(init-step)
 			cf.Pc += Sbx
 			return 0
 		},
@@ -849,6 +856,19 @@ func opArith(L *LState, inst uint32, baseframe *callFrame) int { //OP_ADD, OP_SU
 		// +inline-call reg.Set RA v
 	}
 	return 0
+}
+
+// forOperand converts a numeric for-loop operand: a number, or a string that is a numeral.
+func forOperand(v LValue) (LNumber, bool) {
+	switch lv := v.(type) {
+	case LNumber:
+		return lv, true
+	case LString:
+		if num, err := parseNumber(string(lv)); err == nil {
+			return num, true
+		}
+	}
+	return LNumber(0), false
 }
 
 func luaModulo(lhs, rhs LNumber) LNumber {
